@@ -105,6 +105,23 @@ theorem fma_eq (z x y u : Dec) (su a : Bool) (ha : (su || a) = su) (hu : su = tr
         fin { K with prec := if g.fresh then g.z0_prec else g.zPrec } :=
   GenFma.fma_eq z x y u su a ha hu
 
+/-! ### `Sqrt`: prologue, NaN, special operands, exponent parity and halving -/
+
+/-- `Sqrt` as regenerated from decimal_sqrt.go, with `x.MantExp(z)` instantiated by what it does: the ErrNaN panic
+    for a negative non-zero operand and the early return for ±0 / +Inf leave exactly the model's receiver; for a
+    finite positive operand the receiver's precision and mode are those of the prologue (restored after MantExp),
+    the exponent handed to `sqrtInverse` is 0, 1 or −1 by the parity of `x.exp` (Go's truncated `%`), and `SetMantExp`
+    re-attaches `x.exp / 2` (Go's truncated `/`) — `goMod2`, `goDiv2` of the model. -/
+theorem sqrt_eq (z x : Dec) (hexp : -2147483648 ≤ x.exp ∧ x.exp ≤ 2147483647) :
+    let g := Gen.Facts.Sqrt x.form.toNat x.neg x.prec x.exp x.prec x.mode.toNat x.acc x.form.toNat x.neg 0
+      z.prec z.mode.toNat z.acc z.form.toNat z.neg z.exp
+    let z1 : Dec := { z with prec := g.zPrec, acc := g.zAcc, form := GenFacts.formOf g.zForm, neg := g.zNeg }
+    (¬ (x.form = .finite ∧ x.neg = false) → g.tail = 0 ∧ Decimal.sqrt z x false = (z1, GenFacts.outcomeOf g.outcome)) ∧
+    (x.form = .finite ∧ x.neg = false →
+      g.tail = 3 ∧ g.outcome = 0 ∧ g.zPrec = (if z.prec = 0 then x.prec else z.prec) ∧ GenFacts.modeOf g.zMode = z.mode ∧
+      g.zExp = goMod2 x.exp ∧ g.arg = goDiv2 x.exp) :=
+  GenConv.sqrt_eq z x hexp
+
 /-! ### the saturating conversions (regenerated decision logic of `Int64`, `Uint64`, `Abs`) -/
 
 /-- `Int64` as regenerated — the form switch, `exp <= 0`, `exp <= 20`, the 64-bit fit of the integer part, the
@@ -173,6 +190,7 @@ private def same (a b : Except String WDec) : Bool := toString (repr a) == toStr
 #print axioms uint64_eq
 #print axioms abs_eq
 #print axioms fma_eq
+#print axioms sqrt_eq
 #print axioms setInt64_args
 #print axioms setUint64_args
 #print axioms newDecimal_args
